@@ -45,7 +45,7 @@ type c07Obs struct {
 	Dispatches int64  `json:"dispatches"`
 	Rolls      int64  `json:"rolls"`
 	Monotone   bool   `json:"monotone"`
-	MaxExcess  int64  `json:"maxExcess"` // max over dispatches of work - 6*ops
+	MaxExcess  int64  `json:"maxExcess"` // max over dispatches of work - 2*ops
 	Millis     int64  `json:"millis"`
 	ProgLen    int    `json:"progLen"`
 }
@@ -170,7 +170,7 @@ func c07RunOne(c c07Case) c07Obs {
 		}
 		lastOps = ops
 		o.Ops = ops
-		if ex := o.Dispatches + o.Rolls - 6*ops; ex > o.MaxExcess {
+		if ex := o.Dispatches + o.Rolls - 2*ops; ex > o.MaxExcess {
 			o.MaxExcess = ex
 		}
 		mu.Unlock()
@@ -194,9 +194,9 @@ func c07RunOne(c c07Case) c07Obs {
 			case <-tick.C:
 				var ms runtime.MemStats
 				runtime.ReadMemStats(&ms)
-				if time.Since(t0) > 12*time.Second || ms.HeapAlloc > 1500<<20 {
+				if time.Since(t0) > 45*time.Second || ms.HeapAlloc > 1500<<20 {
 					mu.Lock()
-					o.TimedOut = time.Since(t0) > 12*time.Second
+					o.TimedOut = time.Since(t0) > 45*time.Second
 					o.Killed = !o.TimedOut
 					o.Millis = time.Since(t0).Milliseconds()
 					b, _ := json.Marshal(o)
@@ -313,7 +313,7 @@ func c07InProc(c c07Case) c07Obs {
 		}
 		lastOps = ops
 		o.Ops = ops
-		if ex := o.Dispatches + o.Rolls - 6*ops; ex > o.MaxExcess {
+		if ex := o.Dispatches + o.Rolls - 2*ops; ex > o.MaxExcess {
 			o.MaxExcess = ex
 		}
 	}
